@@ -11,6 +11,7 @@ package circl_test
 // the very sources those variables are initialised from.
 
 import (
+	"encoding/binary"
 	"fmt"
 	"testing"
 
@@ -47,6 +48,17 @@ func c14KemSchemes() []kem.Scheme {
 	return out
 }
 
+// c14KyberBoundarySeeds: key-seed counters (seed = LE64(counter) || 0..) found by search with the independent scanner:
+// at least one entry of the matrix A needs a fourth 168-byte SHAKE-128 block (the four-way sampler then squeezes on
+// for the unfinished lanes only; about 1 polynomial in 100). Re-checked at run time on the rho the build derived.
+// Candidates equal to q = 3329 (first rejected value) occur in most matrices and are only counted.
+var c14KyberBoundarySeeds = map[string][]uint64{
+	"Kyber512": {25, 84, 130}, "Kyber768": {20, 25, 42}, "Kyber1024": {7, 10, 20},
+	"ML-KEM-512": {72, 74, 135}, "ML-KEM-768": {16, 29, 33}, "ML-KEM-1024": {0, 6, 42},
+}
+
+var c14KyberK = map[string]int{"Kyber512": 2, "Kyber768": 3, "Kyber1024": 4, "ML-KEM-512": 2, "ML-KEM-768": 3, "ML-KEM-1024": 4}
+
 func TestVerifC14_kem(t *testing.T) {
 	c := verifc14.Start(t, "kem")
 	c14AllBackends(c)
@@ -60,29 +72,73 @@ func TestVerifC14_kem(t *testing.T) {
 	r.Set("schemes", names)
 	r.Rule("every kem.Scheme of kem/schemes.All() plus the two HPKE-only hybrids; key seeds = first 3 (quick) / 5 of SEEDS(SeedSize) (00.., FF.., 00 01 02.., 2 SHAKE) plus thorough: VERIF_SEED seeds; " +
 		"encapsulation seeds = first 2 / 4 of SEEDS(EncapsulationSeedSize); a case = (scheme, key seed): public and private key bytes, re-marshalled unmarshalled keys, per encapsulation seed ciphertext, " +
-		"shared secret, decapsulated secret, and the decapsulation results of the ciphertext with its first bit, its last bit flipped and of the all-zero ciphertext")
+		"shared secret, decapsulated secret, and the decapsulation results of the ciphertext with its first bit, its last bit flipped and of the all-zero ciphertext; " +
+		"plus, for Kyber512/768/1024 and ML-KEM-512/768/1024, searched key seeds LE64(counter)||0.. whose matrix has an entry that needs a fourth SHAKE-128 block (rare path of the four-way sampler), 2 per scheme quick / 3 thorough; " +
+		"an independent scan of rho confirms each hit and counts the keys whose matrix streams contain a 12-bit candidate equal to q (vacuity floors)")
 	r.NotExhaustive("declared seed alphabet")
 	type job struct {
-		s  kem.Scheme
-		ki int
+		s     kem.Scheme
+		ki    int // index into SEEDS, or -1
+		bound uint64
 	}
 	var jobs []job
+	nbound := 0
 	for _, s := range all {
 		ks := verifmc.SeedsN(s.SeedSize(), r.Seed(), nkey)
 		if r.Thorough() {
 			ks = verifmc.Seeds(s.SeedSize(), r.Seed())
 		}
 		for ki := range ks {
-			jobs = append(jobs, job{s, ki})
+			jobs = append(jobs, job{s, ki, 0})
+		}
+		if b, ok := c14KyberBoundarySeeds[s.Name()]; ok {
+			for _, ctr := range b[:r.Pick(2, len(b))] {
+				jobs = append(jobs, job{s, -1, ctr})
+				nbound++
+			}
 		}
 	}
+	r.Set("matrix_sampler_boundary_key_seeds", c14KyberBoundarySeeds)
 	verifmc.ParallelFor(len(jobs), func(ji int) {
 		j := jobs[ji]
 		s := j.s
-		c.Case(fmt.Sprintf("%s#keyseed%d", s.Name(), j.ki), func(d *verifc14.D) {
-			seed := verifmc.Seeds(s.SeedSize(), r.Seed())[j.ki]
+		id := fmt.Sprintf("%s#keyseed%d", s.Name(), j.ki)
+		if j.ki < 0 {
+			id = fmt.Sprintf("%s#boundaryseed%d", s.Name(), j.bound)
+		}
+		c.Case(id, func(d *verifc14.D) {
+			var seed []byte
+			if j.ki >= 0 {
+				seed = verifmc.Seeds(s.SeedSize(), r.Seed())[j.ki]
+			} else {
+				seed = make([]byte, s.SeedSize())
+				binary.LittleEndian.PutUint64(seed, j.bound)
+			}
 			pk, sk := s.DeriveKeyPair(append([]byte{}, seed...))
 			pkb, err := pk.MarshalBinary()
+			if k, ok := c14KyberK[s.Name()]; ok && err == nil {
+				// which rare paths of the matrix sampler does this key reach? rho = last 32 bytes of the public key
+				rho := pkb[len(pkb)-32:]
+				eq, maxBlocks := 0, 0
+				for x := 0; x < k; x++ {
+					for y := 0; y < k; y++ {
+						_, q, _, bl, _ := verifc14.KyberUniform(rho, uint8(x), uint8(y))
+						eq += q
+						if bl > maxBlocks {
+							maxBlocks = bl
+						}
+					}
+				}
+				if eq > 0 {
+					r.Count("keys_with_matrix_candidate_eq_q/"+s.Name(), 1)
+				}
+				if maxBlocks >= 4 {
+					r.Count("keys_with_4block_matrix_stream", 1)
+					r.Count("keys_with_4block_matrix_stream/"+s.Name(), 1)
+				} else if j.ki < 0 {
+					r.Count("boundary_seed_without_hit", 1)
+				}
+			}
 			d.Err("pk.marshal", err)
 			d.Bytes("pk", pkb)
 			skb, err := sk.MarshalBinary()
@@ -126,7 +182,32 @@ func TestVerifC14_kem(t *testing.T) {
 			}
 		})
 	})
-	c.Finish(len(all) * nkey)
+	if !r.Replaying() {
+		r.RequireCounter("keys_with_4block_matrix_stream", int64(nbound))
+		for name := range c14KyberBoundarySeeds {
+			r.RequireCounter("keys_with_4block_matrix_stream/"+name, 2)
+			r.RequireCounter("keys_with_matrix_candidate_eq_q/"+name, 1)
+		}
+		if r.Counter("boundary_seed_without_hit") != 0 {
+			r.Vacuous("a searched matrix-sampler boundary seed does not need a fourth SHAKE block")
+		}
+	}
+	c.Finish(len(all)*nkey + nbound)
+}
+
+// c14ExpandABoundarySeeds: key-seed counters (seed = LE64(counter) || 0..) found by search with an independent scanner
+// (and, for the six Dilithium / ML-DSA schemes, by the C04 reference sampler): the SHAKE-128 streams of ExpandA(rho)
+// contain a candidate t == q. The hit is re-checked at run time.
+var c14ExpandABoundarySeeds = map[string][]uint64{
+	"Dilithium2": {3755, 4187, 4284, 5700}, "Dilithium3": {1361, 2839, 3755, 4187}, "Dilithium5": {1213, 1361, 2405, 2839},
+	"ML-DSA-44": {2869, 2878, 5139}, "ML-DSA-65": {1836, 2443, 4095, 5324}, "ML-DSA-87": {52, 345, 1207, 1557},
+	"Ed25519-Dilithium2": {917, 1779, 3594, 3663}, "Ed448-Dilithium3": {417, 1000, 2112, 3450},
+}
+
+// c14DilithiumDims: (k, l) of the matrix A.
+var c14DilithiumDims = map[string][2]int{
+	"Dilithium2": {4, 4}, "Dilithium3": {6, 5}, "Dilithium5": {8, 7}, "ML-DSA-44": {4, 4}, "ML-DSA-65": {6, 5}, "ML-DSA-87": {8, 7},
+	"Ed25519-Dilithium2": {4, 4}, "Ed448-Dilithium3": {6, 5},
 }
 
 func TestVerifC14_sign(t *testing.T) {
@@ -149,29 +230,64 @@ func TestVerifC14_sign(t *testing.T) {
 	r.Set("message_lengths", msgLens)
 	r.Rule("every sign.Scheme of sign/schemes.All(); key seeds = first 3 (quick) / all of SEEDS(SeedSize); messages of the listed lengths (byte k a fixed function of k); contexts {none, \"c14\"} where supported; " +
 		"a case = (scheme, key seed): key bytes, re-marshalled unmarshalled keys, per message and context the signature bytes, Verify of the signature, of the signature with its first / middle / last bit flipped, " +
-		"of the signature on the next message")
+		"of the signature on the next message; plus, for the eight Dilithium-family schemes, searched key seeds LE64(counter)||0.. whose matrix expansion ExpandA(rho) contains a 23-bit rejection-sampling candidate exactly equal to q " +
+		"(the accept/reject boundary of the scalar and the four-way sampler; about 1 key in 1200), 2 per scheme quick / all listed thorough, 3 message lengths; an independent SHAKE-128 scan of rho confirms each hit (vacuity floor)")
 	r.NotExhaustive("declared seed and message alphabets")
 	type job struct {
-		s  sign.Scheme
-		ki int
+		s     sign.Scheme
+		ki    int // index into SEEDS, or -1
+		bound uint64
 	}
 	var jobs []job
+	nbound := 0
 	for _, s := range all {
 		ks := verifmc.SeedsN(s.SeedSize(), r.Seed(), nkey)
 		if r.Thorough() {
 			ks = verifmc.Seeds(s.SeedSize(), r.Seed())
 		}
 		for ki := range ks {
-			jobs = append(jobs, job{s, ki})
+			jobs = append(jobs, job{s, ki, 0})
+		}
+		if b, ok := c14ExpandABoundarySeeds[s.Name()]; ok {
+			for _, ctr := range b[:r.Pick(2, len(b))] {
+				jobs = append(jobs, job{s, -1, ctr})
+				nbound++
+			}
 		}
 	}
+	r.Set("expandA_boundary_key_seeds", c14ExpandABoundarySeeds)
 	verifmc.ParallelFor(len(jobs), func(ji int) {
 		j := jobs[ji]
 		s := j.s
-		c.Case(fmt.Sprintf("%s#keyseed%d", s.Name(), j.ki), func(d *verifc14.D) {
-			seed := verifmc.Seeds(s.SeedSize(), r.Seed())[j.ki]
+		id := fmt.Sprintf("%s#keyseed%d", s.Name(), j.ki)
+		lens := msgLens
+		if j.ki < 0 {
+			id = fmt.Sprintf("%s#boundaryseed%d", s.Name(), j.bound)
+			lens = []int{0, 33, 200}
+		}
+		c.Case(id, func(d *verifc14.D) {
+			var seed []byte
+			if j.ki >= 0 {
+				seed = verifmc.Seeds(s.SeedSize(), r.Seed())[j.ki]
+			} else {
+				seed = make([]byte, s.SeedSize())
+				binary.LittleEndian.PutUint64(seed, j.bound)
+			}
 			pk, sk := s.DeriveKey(append([]byte{}, seed...))
 			pkb, err := pk.MarshalBinary()
+			if dim, ok := c14DilithiumDims[s.Name()]; ok && err == nil {
+				// does ExpandA(rho) of this key meet a 23-bit candidate equal to q (rejected) or q-1 (largest accepted)? rho = first 32 bytes of the public key
+				eq, eqm1 := verifc14.DilithiumExpandAScan(pkb[:32], dim[0], dim[1])
+				if eq > 0 {
+					r.Count("keys_with_expandA_candidate_eq_q", 1)
+					r.Count("keys_with_expandA_candidate_eq_q/"+s.Name(), 1)
+				} else if j.ki < 0 {
+					r.Count("boundary_seed_without_hit", 1)
+				}
+				if eqm1 > 0 {
+					r.Count("keys_with_expandA_candidate_eq_q-1", 1)
+				}
+			}
 			d.Err("pk.marshal", err)
 			d.Bytes("pk", pkb)
 			skb, err := sk.MarshalBinary()
@@ -192,7 +308,7 @@ func TestVerifC14_sign(t *testing.T) {
 			if s.SupportsContext() {
 				ctxs = append(ctxs, &sign.SignatureOpts{Context: "c14"})
 			}
-			for _, n := range msgLens {
+			for _, n := range lens {
 				msg := verifc14.Msg(n)
 				next := verifc14.Msg(n + 1)
 				for ci, o := range ctxs {
@@ -210,7 +326,17 @@ func TestVerifC14_sign(t *testing.T) {
 			}
 		})
 	})
-	c.Finish(len(all) * nkey)
+	if !r.Replaying() {
+		// vacuity: every searched seed must really reach the boundary (decided by the independent scanner on the rho this build derived)
+		r.RequireCounter("keys_with_expandA_candidate_eq_q", int64(nbound))
+		for name := range c14ExpandABoundarySeeds {
+			r.RequireCounter("keys_with_expandA_candidate_eq_q/"+name, 2)
+		}
+		if r.Counter("boundary_seed_without_hit") != 0 {
+			r.Vacuous("a searched ExpandA boundary seed does not reach a candidate equal to q")
+		}
+	}
+	c.Finish(len(all)*nkey + nbound)
 }
 
 func TestVerifC14_hpke(t *testing.T) {
